@@ -593,6 +593,49 @@ def rule_G11(ctx, rule: str = "G11") -> None:
             ctx.proved(rule, name, client.loc(fn), f"{stored[k]} paths store a value built from the {k} parameter alone")
 
 
+def rule_G13(ctx, rule: str = "G13") -> None:
+    """resolving the options of one call leaves the stub as it was: __resolve_request_kwargs and the four call helpers neither
+    assign attributes of `self` nor change, in place, an object they read from `self` (update / setdefault / item store on
+    `self.<x>` or on a local that is just another name for it) - a call-level timeout / deadline / metadata written into the
+    stub-level defaults is what the next call, which passes nothing, is sent with"""
+    client = ctx.repo.mod(M_CLIENT)
+    n = 0
+    bad = None
+    for mname, fns in client.methods("ServiceStub").items():
+        if mname == "__init__":
+            continue
+        fn = fns[0]
+        n += 1
+        # locals that are another name for something held by self
+        aliases = {a.targets[0].id for a in ast.walk(fn) if isinstance(a, ast.Assign) and len(a.targets) == 1 and isinstance(a.targets[0], ast.Name)
+                   and isinstance(a.value, ast.Attribute) and isinstance(a.value.value, ast.Name) and a.value.value.id == "self" and a.value.attr not in ("channel",)}
+
+        def held(e: ast.AST) -> bool:
+            return (isinstance(e, ast.Attribute) and isinstance(e.value, ast.Name) and e.value.id == "self" and e.attr != "channel") or (isinstance(e, ast.Name) and e.id in aliases)
+
+        for x in ast.walk(fn):
+            hit = None
+            if isinstance(x, (ast.Assign, ast.AugAssign, ast.AnnAssign)):
+                for t in (x.targets if isinstance(x, ast.Assign) else [x.target]):
+                    if isinstance(t, ast.Attribute) and isinstance(t.value, ast.Name) and t.value.id == "self":
+                        hit = (x, f"assigns self.{t.attr}")
+                    elif isinstance(t, ast.Subscript) and held(t.value):
+                        hit = (x, f"stores into {ast.unparse(t.value)}")
+            elif isinstance(x, ast.Call) and isinstance(x.func, ast.Attribute) and x.func.attr in ("update", "setdefault", "pop", "popitem", "clear", "append", "extend", "__setitem__") and held(x.func.value):
+                hit = (x, f"calls {ast.unparse(x.func)}(..) on what the stub holds")
+            if hit and bad is None:
+                bad = (mname, hit[0], hit[1])
+    ctx.count(n)
+    ctx.floor(rule, "stub methods", n, 5)
+    name = "stub:call-options-do-not-change-the-stub"
+    if bad:
+        mname, node, what = bad
+        ctx.refuted(rule, name, f"{mname}:{what}"[:80], client.loc(node), f"ServiceStub.{mname} {what} (`{ast.unparse(node)[:90]}`): the options of one call are written into the stub, and a later call "
+                    "through the same stub that passes nothing is sent with them instead of the stub-level defaults", "stub.rpc(req, metadata={'who': 'call'}); stub.rpc(req)  # second call carries who=call")
+    else:
+        ctx.proved(rule, name, client.rel, f"{n} methods of the stub besides __init__: none writes to the stub or to what it holds")
+
+
 def rule_G9(ctx, rule: str = "G9") -> None:
     """request / response types of an RPC are message classes: the type references the service compiler hands to the
     template (stub signatures, handler table) are produced with unwrapping switched off - a wrapper / Timestamp / Duration
